@@ -9,12 +9,12 @@ from vlib.props.c16 import _structured, _shapes
 PID = 'C15'
 RULE = ("exhaustive: every raster over {0,1} with <= 12 cells (thorough 14) and over {0,1,2} with <= 9 cells, every HxW "
         "factorisation incl. 1xN, Nx1, 1x1, connectivity 4 and 8; every (raster, mask) pair over {0,1} for <= 6 cells; random: "
-        "<= 12x12 rings/spirals/combs/noise in int32/int64/float32/float64 with random masks and affine transforms; oracle = "
+        "<= 12x12 rings/spirals/combs/noise in int32/int64/float32/float64 (incl. large integer ids differing by one), C/F/transposed/strided/negative-stride memory layouts of raster and mask, random masks and affine transforms; oracle = "
         "even-odd point-in-polygon rasteriser + BFS components; non-trivial = distinct (raster, mask, connectivity) with a hole, "
         "a provisional-label merge or an 8-connected pinch")
 BUDGET = {'quick': 120, 'thorough': 1200}
 FLOORS = {'quick': {'lossless': 40000, 'with_hole': 300, 'needs_merge': 3000, 'masked': 5000, 'single_column': 100,
-                    'pinch8': 1000, 'transform': 100, 'nested_hole': 5},
+                    'pinch8': 1000, 'transform': 100, 'nested_hole': 5, 'layout.non_C': 150, 'bigint_ids': 40},
           'thorough': {'lossless': 300000, 'with_hole': 3000, 'nested_hole': 50}}
 EXHAUSTIVE = {'quick': ['{0,1}^(HxW) for all H*W<=12, connectivity {4,8}', '{0,1,2}^(HxW) for all H*W<=9 (1/3 sample at 9 cells)',
                         'all (raster, mask) in {0,1}^(HxW) x {0,1}^(HxW) for H*W<=6'],
@@ -43,7 +43,7 @@ def plan(tier, seed):
         nblk = max(1, total // 1024)
         for b in range(nblk):
             out.append(('exhm', '%d,%d,%d,%d' % (h, w, b, nblk)))
-    n = 300 if tier == 'quick' else 4000
+    n = 500 if tier == 'quick' else 5000
     out += [('rand', i) for i in range(n)]
     return out
 
@@ -212,12 +212,26 @@ def check(rec, kind, idx, rng, tier):
         a = (ring % int(rng.choice([2, 3]))).astype(float); skind = 'nested'
     dt = str(rng.choice(['int32', 'int64', 'float32', 'float64']))
     a = (a * float(rng.choice([1, 1, 5])) + float(rng.choice([0, 0, -2, 40]))).astype(dt)
+    if np.dtype(dt).kind == 'i' and rng.random() < 0.35:
+        # large integer ids that differ by one: integers are distinct values whatever their magnitude
+        a = (a.astype('int64') + int(rng.choice([100000, 3000000, 2 ** 30]))).astype(dt)
+        skind += '+bigint'
     mask = None
     if rng.random() < 0.5:
         mask = rng.random((H, W)) < float(rng.choice([0.5, 0.8, 0.95]))
     mdt = str(rng.choice(['bool', 'int64', 'float64']))
+    lay = str(rng.choice(['C', 'C', 'F', 'strided', 'neg', 'T']))
+    mlay = lay if rng.random() < 0.5 else str(rng.choice(['C', 'F', 'strided']))
+    def _lay(arr, kind_):
+        if kind_ == 'T':
+            return np.ascontiguousarray(arr.T).T      # transposed view of a C array (= F order)
+        return gen.layout(arr, kind_)
+    a = _lay(a, lay)
     r = xr.DataArray(a)
-    mk = None if mask is None else xr.DataArray(mask.astype(mdt))
+    mk = None if mask is None else xr.DataArray(_lay(mask.astype(mdt), mlay))
+    rec.cls('layout.' + lay)
+    if lay not in ('C',):
+        rec.ok('layout.non_C')
     tr = None
     if rng.random() < 0.5:
         tr = np.array([float(rng.choice([1, 2, 0.5, 30])), 0.0, float(rng.choice([0, 10, -100.5])),
@@ -227,11 +241,13 @@ def check(rec, kind, idx, rng, tier):
     for conn in (4, 8):
         rec.evaluation()
         res = rec.call(polygonize, r, mask=mk, connectivity=conn)
-        extra = dict(structure=skind, dtype=dt, mask_dtype=mdt)
+        extra = dict(structure=skind, dtype=dt, mask_dtype=mdt, layout=lay, mask_layout=mlay)
         if hasattr(res, 'exc'):
             rec.violation('polygonize.raises', 'polygonize raised %r' % res, dict(raster=a, mask=mask, connectivity=conn, **extra)); continue
-        rec.cls('random.' + skind); rec.cls('dtype.' + dt)
+        rec.cls('random.' + skind.split('+')[0]); rec.cls('dtype.' + dt)
         ok = judge(rec, a, mask, conn, res, extra, sample=(idx == 1 and conn == 8))
+        if ok and skind.endswith('+bigint'):
+            rec.ok('bigint_ids')
         if ok and tr is not None:
             rec.evaluation()
             res_t = rec.call(polygonize, r, mask=mk, connectivity=conn, transform=tr if rng.random() < 0.5 else tr.tolist())
